@@ -777,6 +777,25 @@ func (r *runner) runBlock(blk *Block) bool {
 	return true
 }
 
+// ghostAfterRevert (diagnosis model): RevertDiff deletes the added keys (their leaf may stay
+// with value H("")) and sets the deleted/updated ones; leaves left by earlier deletions stay
+// unless set again.
+func ghostAfterRevert(cur, prev tip) map[string]bool {
+	g := map[string]bool{}
+	for k := range cur.ghost {
+		if _, ok := prev.state[k]; !ok {
+			g[k] = true
+		}
+	}
+	for k := range cur.state {
+		if _, ok := prev.state[k]; !ok {
+			g[k] = true
+		}
+	}
+	return g
+}
+
+var reInitConflict = regexp.MustCompile(`conflict in state root at height [0-9]+ with application ([0-9a-f]+) engine`)
 var reRootMismatch = regexp.MustCompile(`^state root ([0-9a-f]+) does not match with expected state root`)
 
 // revertTop reverts the application's top block exactly as consensus.deleteBlock does.
@@ -800,19 +819,7 @@ func (r *runner) revertTop() bool {
 			deleted++
 		}
 	}
-	// diagnosis model: RevertDiff deletes the added keys (leaf may stay with value H("")),
-	// sets the deleted/updated ones; leaves left by earlier deletions stay unless set again
-	ghostAfter := map[string]bool{}
-	for k := range cur.ghost {
-		if _, ok := prev.state[k]; !ok {
-			ghostAfter[k] = true
-		}
-	}
-	for k := range cur.state {
-		if _, ok := prev.state[k]; !ok {
-			ghostAfter[k] = true
-		}
-	}
+	ghostAfter := ghostAfterRevert(cur, prev)
 	var ctxID []byte
 	if err := r.call("InitStateMachine", func() error {
 		resp, e := r.h.InitStateMachine(&labi.InitStateMachineRequest{Header: cur.header})
@@ -916,6 +923,22 @@ func (r *runner) restart(op *Op) bool {
 	})
 	if r.dead() {
 		return false
+	}
+	if m := reInitConflict.FindStringSubmatch(fmt.Sprint(err)); err != nil && m != nil {
+		// Init rolled back but arrived at another root than the engine's: compare it with the
+		// LIP-0039 root of the state at the engine's height
+		got, _ := hex.DecodeString(m[1])
+		cur := r.top()
+		for i := len(r.chain) - 2; i >= engineLen-1; i-- {
+			prev := r.chain[i]
+			prev.ghost = ghostAfterRevert(cur, prev)
+			cur = prev
+		}
+		if rootClass(got, engine.state, cur.ghost) != "" {
+			r.checkRoot("init-recovery", got, engine.state, cur.ghost)
+			r.abort("init root conflict")
+			return false
+		}
 	}
 	if err != nil {
 		r.violate(fmt.Sprintf("init-recovery:error:%s", errClass(err)), fmt.Sprintf("Init with the application %d block(s) ahead of the engine returned an error instead of rolling back: %v", ahead, err), map[string]any{"ahead": ahead})
